@@ -14,6 +14,7 @@ import re
 from .sched import no_preempt
 
 _SUBQ = re.compile(r"subquery_-?\d+")
+STRICT_ORDER = True
 
 ACCESSORS = [
     "statements",
@@ -77,11 +78,16 @@ def call(runner, name: str):
         if name == "statements":
             return list(runner.statements())
         if name in ("source_tables", "target_tables", "intermediate_tables"):
-            return sorted(_rw(str(t)) for t in getattr(runner, name))
+            # the library returns these lists sorted by printed name: the order is part of the answer
+            # (anonymous sub-queries never appear among tables, so no rewrite can perturb it)
+            return [_rw(str(t)) for t in getattr(runner, name)]
         if name.startswith("col_"):
             a, b = name[4] == "t", name[5] == "t"
             paths = runner.get_column_lineage(exclude_path_ending_in_subquery=a, exclude_subquery_columns=b)
-            return sorted([_rw(str(c)) for c in p] for p in paths)
+            raw = [[str(c) for c in p] for p in paths]
+            if STRICT_ORDER and not any(_SUBQ.search(c) for p in raw for c in p):
+                return raw  # no generated name involved: the library's own order is part of the answer
+            return sorted([_rw(c) for c in p] for p in raw)
         if name == "cyto_table":
             return _cyto(runner.to_cytoscape())
         if name == "cyto_column":
